@@ -37,6 +37,8 @@ class Stages(AbsInt):
     def method_call(self, meth, node, recv, fr):
         if meth == 'corr' and isinstance(recv, frozenset):
             return self.each(recv, lambda a: a + ('corr',))
+        if meth == 'cov' and isinstance(recv, frozenset):
+            return self.each(recv, lambda a: a + ('cov',))
         if meth in ('to_numpy', 'copy', 'astype') and isinstance(recv, frozenset):
             return recv
         return None
@@ -56,9 +58,13 @@ class Stages(AbsInt):
         if name == 'pandas.DataFrame':
             d = kwarg(node, 'data', 0)
             return self.value(d, fr) if d is not None else TOP
+        if name in ('numpy.corrcoef',) and node.args:
+            return self.each(self.value(node.args[0], fr), lambda a: a + ('corr',))
+        if name in ('numpy.cov',) and node.args:
+            return self.each(self.value(node.args[0], fr), lambda a: a + ('cov',))
         if name in ('numpy.identity', 'numpy.eye'):
             return ('identity',)
-        if name in ('numpy.array', 'numpy.asarray') and node.args:
+        if name in ('numpy.array', 'numpy.asarray', 'numpy.atleast_2d', 'numpy.asanyarray', 'numpy.ascontiguousarray') and node.args:
             return self.value(node.args[0], fr)
         return TOP
 
@@ -152,7 +158,8 @@ def run(ctx, rep):
                 and stages.index('scores') < stages.index('corr') < stages.index('nan0')
             label = 'ridge' if any(x.startswith('ridge:') for x in alt) else 'plain'
             rep.check('D1.chain', fn, anchor, ok, f'stages {stages}',
-                      f'the returned matrix passes {stages}: the NaN-to-zero step (constant columns) or the corr() of the normal scores is missing',
+                      f'the returned matrix passes {stages}: the NaN-to-zero step (constant columns) or the corr() of the normal scores is missing'
+                      + (' (a covariance is not a correlation: the unit diagonal and the [-1, 1] range are lost unless every score column has variance 1)' if 'cov' in stages else ''),
                       construct=f'return stages ({label} path)')
         ridged = [a for a in alts if any(x.startswith('ridge:') for x in a)]
         plain = [a for a in alts if a not in ridged]
